@@ -74,7 +74,9 @@ impl Decoder {
                     self.state = RecvState::Dropping(remaining_length - to_drop)
                 }
 
-                (None, data.split_to(to_drop))
+                // skip the dropped bytes and hand back what follows them
+                data.advance(to_drop);
+                (None, data)
             }
         }
     }
